@@ -319,6 +319,17 @@ func replayLegacy(line []byte, a *Acc) {
 		got, e := j2x.JsonUpdateValsForPath(jdoc, "a:N", firstPath)
 		eq("j2x.JsonUpdateValsForPath", string(got)+cls(e), string(cj)+cls(ce))
 	}
+	{
+		// the same on a non-canonical text of the document (indented), with a path that addresses nothing
+		jind, _ := mv.JsonIndent("", "  ")
+		for _, path := range []string{firstPath, "zz.q", "*.zz.q"} {
+			c := mxj.Map(tagged.DeepCopyGo(m).(map[string]interface{}))
+			_, ce := c.UpdateValuesForPath("a:N", path, "zz:1")
+			cj, _ := c.Json()
+			got, e := j2x.JsonUpdateValsForPath(jind, "a:N", path, "zz:1")
+			eq("j2x.JsonUpdateValsForPath(indented input, "+path+")", string(got)+cls(e), string(cj)+cls(ce))
+		}
+	}
 	called("JsonNewJson")
 	called("JsonNewXml")
 	{
